@@ -860,7 +860,8 @@ void Net::helperInput(Proc *p)
         std::string chan, payload = line;
         if (h->concurrency > 0) { size_t sp = line.find(' '); chan = line.substr(0, sp); payload = sp == std::string::npos ? "" : line.substr(sp + 1); }
         Rule *pick = nullptr;
-        for (auto &r : h->rules) if (ruleMatches(r, payload)) { pick = &r; break; }
+        const std::string subject = payload + "\n"; // the terminator is part of what a rule sees, so a rule can anchor at the end of the line
+        for (auto &r : h->rules) if (ruleMatches(r, subject)) { pick = &r; break; }
         if (pick) ++pick->uses;
         hist("HREQ\t%d\t%s\t%s\t%s", c->id, chan.empty() ? "-" : chan.c_str(), pick ? pick->id.c_str() : "-", histBlob(line.data(), line.size()).c_str());
         std::string reply = pick ? pick->reply : std::string("BH message=\"sim-norule\"");
